@@ -25,7 +25,7 @@ if REPO not in sys.path:
 if ROOT not in sys.path:
     sys.path.insert(0, ROOT)
 
-from mc.core import Ctx, HarnessError, Stats, jsonable  # noqa: E402
+from mc.core import Ctx, HarnessError, Stats, guarded_call, jsonable  # noqa: E402
 
 EVIDENCE_SCHEMA = "/root/.vp/EVIDENCE.schema.json"
 
@@ -144,7 +144,7 @@ def main(argv=None):
             if args.tier not in opts.get("tiers", ("quick", "thorough")):
                 continue
             s0 = time.time()
-            st = fn(ctx)
+            st = guarded_call(fn, ctx)
             dt = time.time() - s0
             for v in st.viol.values():
                 for c in v["cases"]:
